@@ -184,6 +184,15 @@ def gen(c):
             line = {"op": "sign", "iface": iface, "d": i2b(d), "ident": ident2, "msg": m2, "dgst": e2, "reps": reps, "seed": 1000 + len(lines), "siglen": rng.choice([70, 71, 72]),
                     "chunks": ",".join(map(str, sorted(rng.sample(range(len(m2) + 1), min(2, len(m2) + 1)))))}
             add(line, {"kind": "signrun", "what": "sign:%s:%d" % (iface, trial), "iface": iface, "e": e2, "d": d, "siglen": line["siglen"], "P": P})
+    # nonces the standard tells the signer to throw away (GB/T 32918.2 A5: r = 0 or r + k = n): the first nonce drawn is forced to one for which the digest
+    # at hand gives exactly that
+    for tag in ("r_is_zero", "r_plus_k_is_n"):
+        for iface in ("dgst", "do", "fixlen"):
+            k0 = rng.randrange(1, n)
+            x1 = mul(k0, G)[0]
+            e0 = (-x1) % n if tag == "r_is_zero" else (n - k0 - x1) % n
+            line = {"op": "sign", "iface": iface, "d": i2b(d), "ident": DEFAULT_ID, "msg": b"", "dgst": i2b(e0), "reps": 1, "seed": 1500 + len(lines), "siglen": 71, "chunks": "0", "first": k0.to_bytes(32, "little")}
+            add(line, {"kind": "signrun", "what": "sign:%s:forced-nonce:%s" % (iface, tag), "iface": iface, "e": i2b(e0), "d": d, "siglen": 71, "P": P, "forced": k0})
     return lines, cases
 
 
@@ -223,6 +232,9 @@ def body():
                     continue
                 r, s = rs
                 k = (s * (1 + d) + r * d) % n
+                if (r + k) % n == 0 or k == case.get("forced"):
+                    c.violation(key + ":rep%s:badnonce" % ev.get("rep"), "the signature was made with a nonce the standard requires the signer to discard (r = 0 or r + k = n)", {"line": line, "event": ev})
+                    continue
                 x1 = mul(k, G)[0] if k else 0
                 wk, wside, _ = W.diffmod(s * (1 + d) + r * d, k, n)
                 w2k, w2side, w2r = W.diffmod(e + x1, r, n)
